@@ -75,7 +75,7 @@ def gen_step(rnd, names, kinds):
     if k == 'selfexit':
         return ['die', name, rnd.randint(0, 3), simhist.wstatus('exit', rnd.randint(0, 255))]
     if k == 'sigexit':
-        return ['die', name, rnd.randint(0, 3), rnd.choice([1, 2, 3, 6, 9, 11, 15])]
+        return ['die', name, rnd.randint(0, 3), rnd.choice([1, 2, 3, 6, 9, 11, 15, 35, 50, 63, 3 | 0x80, 11 | 0x80])]
     if k == 'check':
         return ['check']
     if k == 'advance':
